@@ -30,7 +30,7 @@ PROPS = {
                 gen=parse_family('C02', 3000, 40000), flavours=['c', 'c-weak'],
                 rule='random grammars with random translations (permuted, partial, nil-padded, pass-through, empty); sentences <= 7 tokens; one_parse=1 cost=0; tree compared with the enumerated translations of all derivations',
                 assumptions=COMMON_ASSUME + ['enumeration capped at 3000 derivations per input and 9 tokens (depth_bound: the enumerator is complete for every accepted grammar)', 'C02 is a theorem about the step-for-step models: for every grammar readGrammar accepts and every sentence, the model of make_parse in one-parse mode, run on the parse list of the model of build_pl (levels 0/1), ends within an explicit fuel bound with a table without ALT node that denotes exactly the translation of a derivation of the input, TERM nodes carrying code and position of their tokens (accepted_makeParse_one, makeParse_one_sound, makeParse_one_total, makeParse_one_terms); the two step models are tied to the C code on every parse (identical exports)']),
-    'C03': dict(level='proof', theorem_modules=['C03', 'C02', 'MakeParse', 'MakeParseSound', 'MakeParseTotal', 'HeapWf', 'MakeParseComplete', 'ExactCost'], min_theorems=30, tags=['C03'], crash_counts=True,
+    'C03': dict(level='proof', theorem_modules=['C03', 'C02', 'MakeParse', 'MakeParseSound', 'MakeParseTotal', 'HeapWf', 'MakeParseComplete', 'ExactCost', 'CompleteLa2'], min_theorems=30, tags=['C03'], crash_counts=True,
                 gen=lambda seed, tier: parse_family('C03', 3000, 40000)(seed, tier) + capacity_cases(seed, ('L-amb', 'L-deep')), flavours=['c', 'c-weak'],
                 rule='as C02 with one_parse=0: set of trees denoted by the DAG vs set of translations of all derivations',
                 assumptions=COMMON_ASSUME + ['the sound half of C03 is a theorem about the step model of make_parse (makeParse_all_sound: every tree the all-parses forest denotes is the translation of a derivation of the input, for every accepted grammar and input); the all-parses run always ends with a well-formed acyclic forest (makeParse_all_total with the explicit fuel mpAllFuel, makeParse_heap_wf, makeParse_all_not_cyclic; the fuel is exponential and must be: known finding D31; polynomial when no pass-through rule derives itself: makeParse_all_total_poly); the complete half is a theorem for event-free runs (makeParse_all_complete_eventfree: reuse = 0 and origins = 0, the two counters of the mpev hook line, imply that every translation is denoted) and false otherwise (known finding D9, makeParse_forest_incomplete: the two events are exactly D9a / D9b); it is judged per run, with full force on event-free runs and with the attribution rule of known_findings.txt on runs with an event']),
@@ -50,7 +50,7 @@ PROPS = {
                 gen=parse_family('C08', 3000, 40000, maxlen=9), flavours=['c'],
                 rule='grammars with error rules, non-sentences <= 9 tokens, recovery_match 1..5, lookahead 0-2: the number of tokens the first callback reports ignored vs the minimum over all simple recoveries (back position with `. error` x forward skip) computed by brute force from the statement over the model sets',
                 assumptions=COMMON_ASSUME + ['recover_minimal is proved for the recovery model; accepted_recover_minimal removes the hypothesis r.ok for every accepted grammar from the explicit fuel recoveryFuel on; the oracle simpleRecoveryCosts is the property statement itself']),
-    'C09': dict(level='proof', theorem_modules=['C09', 'C09Lookahead', 'C01', 'BuildSet2', 'LaIndep', 'LaIndep2'], min_theorems=12, tags=['C09'], crash_counts=True,
+    'C09': dict(level='proof', theorem_modules=['C09', 'C09Lookahead', 'C01', 'BuildSet2', 'LaIndep', 'LaIndep2', 'CompleteLa2'], min_theorems=12, tags=['C09'], crash_counts=True,
                 gen=lambda seed, tier: parse_family('C09', 2400, 30000)(seed, tier) + long_c09_cases(seed, tier) +
                                        gen.gen_parse_cases(seed + 5, 3000 if tier == 'thorough' else 500, 'C09', maxlen=9, kind='recov-cache', force=dict(rec=1)) +
                                        gen.gen_parse_cases(seed + 6, 1500 if tier == 'thorough' else 150, 'C09', maxlen=9, kind='stmt-list'), flavours=['c', 'c-weak'],
